@@ -5,7 +5,12 @@
 //         latch  -> atomic_intrusive_list<Node, true>  (what v2::async_manual_reset_event uses)
 //         a suffix "+strict" makes the linearizability monitor include empty() (it is known not to be
 //         linearizable; default: its answers are left out of the history);
-//         a suffix "+keep" never destroys nodes (logic only).
+//         a suffix "+keep" never destroys nodes (logic only);
+//         a suffix "+locallife" treats a thread's private target list like the stack-local list of
+//         async_manual_reset_event::set(): it dies when its thread has finished its program
+//         ("!listdead h<l>"), and the monitor reports any later access to its head_ / sentinel_.self
+//         (not part of the registered check: same defect class as the node case, reached through
+//         try_remove of a drained node).
 //   nn: number of nodes (<= 8).  prog: string over
 //     B<d> push_back(n_d)          F<d> push_front(n_d) [plain] / push_front_unless_latched(n_d) [latch]
 //     P    pop_front()             Q    pop_front() of this thread's private target list [latch]
@@ -217,6 +222,7 @@ std::vector<std::function<void()>> make_threads(int nn, const std::vector<Prog>&
           case 'L': if constexpr (Latch) { bool b = M.is_latched(); dsched::action("ret %d", (int)b); } break;
         }
       }
+      if (Latch) dsched::action("listdead h%d", t + 1);
       if (++sh->finished == sh->nt) dsched::action("final %s", sh->final_report().c_str());
     });
   }
@@ -266,12 +272,13 @@ bool search(const std::vector<HOp>& H, std::vector<char>& done, int left, const 
   return false;
 }
 
-std::string monitor(const std::vector<Prog>& P, const dsched::Result& r, bool strict) {
+std::string monitor(const std::vector<Prog>& P, const dsched::Result& r, bool strict, bool locallife) {
   const int nt = (int)P.size();
   std::vector<HOp> H;
   std::vector<int> open(nt, -1);
   std::vector<Cmd> curc(nt, Cmd{0, -1});
   bool handed[MAXN] = {};
+  bool listdead[2 + MAXT] = {};
   std::string verdict, final_line;
   auto bad = [&](const std::string& m) { if (verdict.empty()) verdict = m; };
   for (int idx = 0; idx < (int)r.trace.size(); ++idx) {
@@ -293,11 +300,16 @@ std::string monitor(const std::vector<Prog>& P, const dsched::Result& r, bool st
         open[t] = -1; curc[t] = Cmd{0, -1};
       } else if (rest.compare(0, 11, "!handback n") == 0) {
         handed[rest[11] - '0'] = true;
+      } else if (rest.compare(0, 11, "!listdead h") == 0) {
+        listdead[rest[11] - '0'] = true;
       } else if (rest.compare(0, 7, "!final ") == 0) {
         final_line = rest.substr(7);
       }
       continue;
     }
+    if (locallife && (rest[0] == 'h' || rest[0] == 's') && std::isdigit((unsigned char)rest[1]) && listdead[rest[1] - '0'])
+      bad("target list " + std::to_string(rest[1] - '0') + " touched after its owner returned: t" + std::to_string(t) + " (in " + cmd_str(curc[t]) + ") " +
+          rest.substr(0, rest.find(' ', rest.find(' ') + 1)));
     if (rest[0] == 'n' && std::isdigit((unsigned char)rest[1]) && rest[2] == '.') {
       int i = rest[1] - '0';
       bool own = curc[t].c == 'R' && curc[t].d == i;
@@ -327,6 +339,7 @@ int main(int argc, char** argv) {
   if (cli.prog.size() < 3) { std::printf("FATAL usage: <mode> <nn> <prog>...\n"); return 2; }
   std::string mode = cli.prog[0];
   bool strict = mode.find("+strict") != std::string::npos, keep = mode.find("+keep") != std::string::npos;
+  bool locallife = mode.find("+locallife") != std::string::npos;
   bool latch = mode.compare(0, 5, "latch") == 0;
   int nn = std::atoi(cli.prog[1].c_str());
   std::vector<std::string> ps(cli.prog.begin() + 2, cli.prog.end());
@@ -336,5 +349,5 @@ int main(int argc, char** argv) {
   for (auto& p : P) for (auto& c : p) { hasB |= c.c == 'B'; hasD |= c.c == 'D'; latchonly |= (c.c == 'D' || c.c == 'U' || c.c == 'L' || c.c == 'Q'); }
   if ((hasB && hasD) || (latchonly && !latch)) { std::printf("FATAL program outside the interface\n"); return 2; }
   auto make = [&]() { return latch ? make_threads<true>(nn, P, keep) : make_threads<false>(nn, P, keep); };
-  return vh::drive(cli, make, [&](const dsched::Result& r) { return monitor(P, r, strict); });
+  return vh::drive(cli, make, [&](const dsched::Result& r) { return monitor(P, r, strict, locallife); });
 }
